@@ -202,17 +202,75 @@ theorem noNul_lit (l : Bytes) (h : l.all (· != 0) = true) : NoNul l := by
   have := List.all_eq_true.mp h c hc
   simpa using this
 
+theorem blockBodyOk_noNul (B : Bytes) (h : Spec.blockBodyOk B = true) : NoNul B := by
+  induction B with
+  | nil => exact noNul_nil
+  | cons c B' ih =>
+    cases B' with
+    | nil =>
+      simp only [Spec.blockBodyOk, bne_iff_ne, ne_eq] at h
+      intro x hx; simp at hx; subst hx; exact h
+    | cons d B'' =>
+      simp only [Spec.blockBodyOk, Bool.and_eq_true, bne_iff_ne, ne_eq] at h
+      intro x hx
+      rcases List.mem_cons.mp hx with rfl | hx
+      · exact h.1.1
+      · exact ih h.2 x hx
+
+theorem lineTextOk_noNul (T : Bytes) (h : Spec.lineTextOk T = true) : NoNul T := by
+  intro c hc
+  have := List.all_eq_true.mp h c hc
+  simp only [Bool.and_eq_true, bne_iff_ne, ne_eq] at this
+  exact this.1
+
+theorem noNul_optBlock (B : Bytes) : NoNul ([47, 42] ++ (if Spec.blockBodyOk B then B else []) ++ [42, 47]) := by
+  refine noNul_append (noNul_append (noNul_lit _ (by decide)) ?_) (noNul_lit _ (by decide))
+  by_cases h : Spec.blockBodyOk B = true
+  · rw [if_pos h]; exact blockBodyOk_noNul B h
+  · rw [if_neg h]; exact noNul_nil
+
+theorem renderPiece_noNul (flat : Bool) (p : Spec.GapPiece) : NoNul (Spec.renderPiece flat p) := by
+  cases p with
+  | ws c =>
+    intro x hx
+    simp only [Spec.renderPiece, List.mem_singleton] at hx
+    subst hx
+    by_cases h : Spec.wsByteOk c = true
+    · rw [if_pos h]
+      simp only [Spec.wsByteOk, Bool.or_eq_true, beq_iff_eq] at h
+      rcases h with (((h | h) | h) | h) | h <;> subst h <;> decide
+    · rw [if_neg h]; decide
+  | nl => cases flat <;> exact noNul_lit _ (by decide)
+  | block B => exact noNul_optBlock B
+  | line T =>
+    cases flat
+    · simp only [Spec.renderPiece, Bool.false_eq_true, if_false]
+      refine noNul_append (noNul_append (noNul_lit _ (by decide)) ?_) (noNul_lit _ (by decide))
+      by_cases h : Spec.lineTextOk T = true
+      · rw [if_pos h]; exact lineTextOk_noNul T h
+      · rw [if_neg h]; exact noNul_nil
+    · simpa [Spec.renderPiece] using noNul_optBlock T
+
+theorem renderPieces_noNul (flat : Bool) (ps : List Spec.GapPiece) : NoNul (Spec.renderPieces flat ps) := by
+  induction ps with
+  | nil => exact noNul_nil
+  | cons p ps ih => exact noNul_append (renderPiece_noNul flat p) ih
+
 theorem gapAny_noNul (g : Nat) : NoNul (gapAny g) := by
   unfold gapAny
-  rw [gapTable_lit]
-  rcases mod10_cases g with h | h | h | h | h | h | h | h | h | h <;> rw [h] <;>
-    simp only [List.getD_cons_zero, List.getD_cons_succ] <;> exact noNul_lit _ (by decide)
+  by_cases hg : g < 36
+  · rw [if_pos hg, gapTable_lit]
+    rcases mod10_cases g with h | h | h | h | h | h | h | h | h | h <;> rw [h] <;>
+      simp only [List.getD_cons_zero, List.getD_cons_succ] <;> exact noNul_lit _ (by decide)
+  · rw [if_neg hg]; exact renderPieces_noNul false _
 
 theorem gapFlat_noNul (g : Nat) : NoNul (gapFlat g) := by
   unfold gapFlat
-  rw [gapTableFlat_lit]
-  rcases mod10_cases g with h | h | h | h | h | h | h | h | h | h <;> rw [h] <;>
-    simp only [List.getD_cons_zero, List.getD_cons_succ] <;> exact noNul_lit _ (by decide)
+  by_cases hg : g < 36
+  · rw [if_pos hg, gapTableFlat_lit]
+    rcases mod10_cases g with h | h | h | h | h | h | h | h | h | h <;> rw [h] <;>
+      simp only [List.getD_cons_zero, List.getD_cons_succ] <;> exact noNul_lit _ (by decide)
+  · rw [if_neg hg]; exact renderPieces_noNul true _
 
 theorem hexDigit_ne_zero (n : Nat) (hn : n < 16) : Spec.hexDigitL n ≠ 0 ∧ Spec.hexDigitU n ≠ 0 := by
   have : n = 0 ∨ n = 1 ∨ n = 2 ∨ n = 3 ∨ n = 4 ∨ n = 5 ∨ n = 6 ∨ n = 7 ∨ n = 8 ∨ n = 9 ∨ n = 10 ∨ n = 11 ∨
